@@ -99,6 +99,15 @@ Proof.
 Qed.
 Local Opaque do_build.
 
+Lemma do_touch_floor lo s size : TIncr lo s ->
+  TIncr lo (do_touch s size) /\ qlowb (builders (do_touch s size)) (next_topic (do_touch s size)) = qlowb (builders s) (next_topic s).
+Proof.
+  unfold TIncr, do_touch. intro H. destruct (done s); [auto|].
+  destruct (match last_opt (builders s) with Some last => if size =? 0 then false else max_block_size <? b_blk last + size | None => true end);
+    cbn [builders next_topic]; [|auto].
+  split; [unfold topics; rewrite map_app; apply incr_snoc, H | apply qlowb_snoc; reflexivity].
+Qed.
+
 Definition sends (s : mq) (w : list N) (s' : mq) : Prop :=
   w = [] \/ exists b k, pend_of s = Some (b, k) /\ w = [b_topic b] /\ b_topic b + 1 <= bound s'.
 
@@ -184,7 +193,13 @@ Qed.
 Lemma qstep16_floor s l E A : InvS (pend_of s) s E A ->
   bound s <= bound (fst (qstep16 s l)) /\ sends s (step_wire s l) (fst (qstep16 s l)).
 Proof.
-  intro H. destruct l as [l|r ops]; [exact (qstep_floor s l E A H)|].
+  intro H. destruct l as [l|r ops|sz]; [exact (qstep_floor s l E A H)| |].
+  2:{ unfold step_wire, qstep16. destruct (inv_floor s E A H) as [HT _].
+      destruct (do_touch_floor _ s sz HT) as [H1 Hq]. pose proof (do_touch_ph s sz) as Hp.
+      assert (Hb : bound (do_touch s sz) = bound s) by (unfold bound, pend_of; rewrite Hp, Hq; reflexivity).
+      destruct (ph (do_touch s sz)) eqn:Ep; try (cbn [fst snd out_nil q_wire map]; rewrite Hb; split; [lia | left; reflexivity]).
+      destruct (run_loop_floor (loop_fuel (do_touch s sz)) (do_touch s sz) out_nil _ H1 Ep) as (A1 & _ & A3).
+      rewrite A3. split; [exact A1 | left; reflexivity]. }
   unfold step_wire, qstep16. destruct (inv_floor s E A H) as [HT _].
   destruct (do_build_floor _ s r ops HT) as (H1 & Hq & Hw). pose proof (do_build_ph s r ops) as Hp.
   assert (Hb : bound (fst (do_build s r ops)) = bound s) by (unfold bound, pend_of; rewrite Hp, Hq; reflexivity).
